@@ -675,9 +675,31 @@ func remapInlineStatementHandles(stmt Statement, exprMap []ExpressionHandle, loc
 	case StmtAtomic:
 		out := sk
 		out.Pointer = mapH(sk.Pointer)
+		out.Fun = remapAtomicFunction(sk.Fun, mapOpt)
 		out.Value = mapH(sk.Value)
 		out.Result = mapOpt(sk.Result)
 		return Statement{Kind: out}
+	case StmtImageAtomic:
+		out := sk
+		out.Image = mapH(sk.Image)
+		out.Coordinate = mapH(sk.Coordinate)
+		out.ArrayIndex = mapOpt(sk.ArrayIndex)
+		out.Fun = remapAtomicFunction(sk.Fun, mapOpt)
+		out.Value = mapH(sk.Value)
+		return Statement{Kind: out}
+	case StmtWorkGroupUniformLoad:
+		return Statement{Kind: StmtWorkGroupUniformLoad{Pointer: mapH(sk.Pointer), Result: mapH(sk.Result)}}
+	case StmtRayQuery:
+		return Statement{Kind: StmtRayQuery{Query: mapH(sk.Query), Fun: remapRayQueryFunction(sk.Fun, mapH)}}
+	case StmtSubgroupBallot:
+		return Statement{Kind: StmtSubgroupBallot{Result: mapH(sk.Result), Predicate: mapOpt(sk.Predicate)}}
+	case StmtSubgroupCollectiveOperation:
+		out := sk
+		out.Argument = mapH(sk.Argument)
+		out.Result = mapH(sk.Result)
+		return Statement{Kind: out}
+	case StmtSubgroupGather:
+		return Statement{Kind: StmtSubgroupGather{Mode: remapGatherMode(sk.Mode, mapH), Argument: mapH(sk.Argument), Result: mapH(sk.Result)}}
 	case StmtCall:
 		// Should not occur in Phase 1 — callees are processed bottom-up
 		// and their bodies have no StmtCall left by the time we inline
